@@ -9,6 +9,7 @@
 # and fires one millisecond late.  Runs in which some arming operation can hit that value ("sentinel-exposed") are counted, not
 # judged; directed cases show that the effect is exactly one millisecond.
 # The Coq node model is tied to the C++ on exactly these lines (model and harness outputs are diffed line by line).
+from nodesim import own_addr
 import random, re, time
 import vlib
 import c13_gen
@@ -103,7 +104,7 @@ def addresses_in(case, results):
     m = re.search(r'(?:^|\s)src=(\d+)', cfg)
     n = re.search(r'(?:^|\s)ndev=(\d+)', cfg)
     src0, ndev = int(m.group(1)) if m else 0, int(n.group(1)) if n else 1
-    a = {(src0 + i) & 255 for i in range(ndev)} | {254}
+    a = {own_addr(src0, i) for i in range(ndev)} | {254}
     for res in results:
         a |= {int(x, 16) & 255 for x in re.findall(r'\btx:([0-9a-f]+):', res)}
         a |= {int(x) for x in re.findall(r'\{src=(\d+)', res)}
